@@ -2,6 +2,7 @@ package simredis
 
 import (
 	"fmt"
+	"sort"
 	"strconv"
 	"strings"
 
@@ -30,6 +31,14 @@ type SourceImpl struct {
 	Snapshot func() []byte
 	Psyncs   []PsyncRecord
 	Acks     []int64
+	// propagation of executed writes into the stream
+	Propagate bool
+	Flavour   string // "7" (absolute-expiry rewrites) or "5" (verbatim)
+	Noops     int
+	inTxn     bool
+	txnBuf    []propCmd
+	lastDB    int
+	dbKnown   bool
 	// byteAt, when set, defines the stream lazily: absolute offset -> byte (offset is 1-based).
 }
 
@@ -41,9 +50,166 @@ func NewSource(s *Server, id string) *SourceImpl {
 	return si
 }
 
-func (si *SourceImpl) propagate(s *Server, ss *Session, db int, name string, args [][]byte) {}
-func (si *SourceImpl) beginTxn(s *Server)                                                   {}
-func (si *SourceImpl) endTxn(s *Server, ss *Session)                                        {}
+// Propagation of executed writes into the replication stream, as a Redis master does it
+// (written from the documented behaviour: SELECT injection on database change, MULTI ... EXEC around a
+// transaction only if something inside propagated, no propagation of no-ops, absolute-expiry rewrites in the
+// "7" flavour and verbatim relative expiries in the "5" flavour). Enabled with si.Propagate.
+func (si *SourceImpl) propagate(s *Server, ss *Session, db int, name string, args [][]byte, reply resp.Value) {
+	if !si.Propagate {
+		return
+	}
+	if isReadOnly(name) || isControl(name) {
+		return
+	}
+	if isNoop(name, args, reply) {
+		si.Noops++
+		return
+	}
+	name2, args2 := name, args
+	if si.Flavour != "5" {
+		name2, args2 = absExpiry(name, args)
+	}
+	cmd := append([][]byte{[]byte(name2)}, args2...)
+	if si.inTxn {
+		si.txnBuf = append(si.txnBuf, propCmd{db, cmd})
+		return
+	}
+	si.emit(s, db, cmd)
+}
+
+type propCmd struct {
+	db  int
+	cmd [][]byte
+}
+
+func (si *SourceImpl) emit(s *Server, db int, cmd [][]byte) {
+	if db != si.lastDB || !si.dbKnown {
+		s.Repl.AppendStream(resp.EncodeCommand([]byte("SELECT"), []byte(strconv.Itoa(db))))
+		si.lastDB, si.dbKnown = db, true
+	}
+	s.Repl.AppendStream(resp.EncodeCommand(cmd...))
+}
+
+func (si *SourceImpl) beginTxn(s *Server) {
+	si.inTxn = true
+	si.txnBuf = nil
+}
+
+func (si *SourceImpl) endTxn(s *Server, ss *Session) {
+	si.inTxn = false
+	if !si.Propagate || len(si.txnBuf) == 0 {
+		si.txnBuf = nil
+		return
+	}
+	// a needed SELECT is emitted before MULTI
+	db := si.txnBuf[0].db
+	if db != si.lastDB || !si.dbKnown {
+		s.Repl.AppendStream(resp.EncodeCommand([]byte("SELECT"), []byte(strconv.Itoa(db))))
+		si.lastDB, si.dbKnown = db, true
+	}
+	s.Repl.AppendStream(resp.EncodeCommand([]byte("MULTI")))
+	for _, c := range si.txnBuf {
+		s.Repl.AppendStream(resp.EncodeCommand(c.cmd...))
+	}
+	s.Repl.AppendStream(resp.EncodeCommand([]byte("EXEC")))
+	si.txnBuf = nil
+}
+
+var readOnlyCmds = map[string]bool{"get": true, "hget": true, "hgetall": true, "exists": true, "ttl": true, "pttl": true, "lrange": true,
+	"llen": true, "smembers": true, "zrangebyscore": true, "zcard": true, "hexists": true, "hlen": true, "xlen": true, "type": true,
+	"keys": true, "dbsize": true, "mget": true, "zrange": true, "scard": true, "strlen": true}
+
+func isReadOnly(name string) bool { return readOnlyCmds[name] }
+
+// isNoop: commands whose reply tells that nothing changed are not propagated.
+func isNoop(name string, args [][]byte, reply resp.Value) bool {
+	switch name {
+	case "del", "unlink", "hdel", "zrem", "srem", "expire", "pexpire", "expireat", "pexpireat", "persist", "setnx", "hsetnx",
+		"zremrangebyscore", "lrem", "sadd", "move", "renamenx", "msetnx":
+		return reply.Kind == ':' && reply.Int == 0
+	case "set":
+		return reply.Kind == '_' // NX/XX condition not met
+	}
+	return false
+}
+
+// absExpiry rewrites relative expiries into absolute ones (Redis >= 7 propagates SET EX/PX as PXAT, EXPIRE/PEXPIRE/EXPIREAT as
+// PEXPIREAT, SETEX/PSETEX as SET ... PXAT).
+func absExpiry(name string, args [][]byte) (string, [][]byte) {
+	now := nowMs()
+	ms := func(b []byte, unit int64, abs bool) []byte {
+		v, ok := atoi(b)
+		if !ok {
+			return b
+		}
+		v *= unit
+		if !abs {
+			v += now
+		}
+		return []byte(strconv.FormatInt(v, 10))
+	}
+	switch name {
+	case "set":
+		out := append([][]byte(nil), args...)
+		for i := 2; i+1 < len(out); i++ {
+			switch strings.ToUpper(string(out[i])) {
+			case "EX":
+				out[i], out[i+1] = []byte("PXAT"), ms(out[i+1], 1000, false)
+			case "PX":
+				out[i], out[i+1] = []byte("PXAT"), ms(out[i+1], 1, false)
+			case "EXAT":
+				out[i], out[i+1] = []byte("PXAT"), ms(out[i+1], 1000, true)
+			}
+		}
+		return name, out
+	case "expire":
+		if len(args) >= 2 {
+			return "pexpireat", [][]byte{args[0], ms(args[1], 1000, false)}
+		}
+	case "pexpire":
+		if len(args) >= 2 {
+			return "pexpireat", [][]byte{args[0], ms(args[1], 1, false)}
+		}
+	case "expireat":
+		if len(args) >= 2 {
+			return "pexpireat", [][]byte{args[0], ms(args[1], 1000, true)}
+		}
+	case "setex":
+		if len(args) == 3 {
+			return "set", [][]byte{args[0], args[2], []byte("PXAT"), ms(args[1], 1000, false)}
+		}
+	case "psetex":
+		if len(args) == 3 {
+			return "set", [][]byte{args[0], args[2], []byte("PXAT"), ms(args[1], 1, false)}
+		}
+	}
+	return name, args
+}
+
+// ExpireCycle deletes keys whose expiry has passed and propagates a DEL for each (active expiry).
+func (s *Server) ExpireCycle() int {
+	n := 0
+	now := nowMs()
+	for db := range s.DBs {
+		var dead []string
+		for k, o := range s.DBs[db] {
+			if o.ExpireAt > 0 && o.ExpireAt <= now {
+				dead = append(dead, k)
+			}
+		}
+		sort.Strings(dead)
+		for _, k := range dead {
+			delete(s.DBs[db], k)
+			n++
+			if s.Repl != nil {
+				if si, ok := s.Repl.impl.(*SourceImpl); ok && si.Propagate {
+					si.emit(s, db, [][]byte{[]byte("DEL"), []byte(k)})
+				}
+			}
+		}
+	}
+	return n
+}
 
 func (si *SourceImpl) replconf(s *Server, ss *Session, a [][]byte) resp.Value {
 	if len(a) >= 2 && strings.EqualFold(string(a[0]), "ack") {
